@@ -959,6 +959,11 @@ func (vfs *OrefaFS) stat(path, op string) (fs.FileInfo, error) {
 		return nil, &fs.PathError{Op: op, Path: path, Err: vfs.err.NotADirectory}
 	}
 
+	if fileName == "" {
+		// the name of a root directory is the path separator.
+		fileName = string(vfs.PathSeparator())
+	}
+
 	fst := child.fillStatFrom(fileName)
 
 	return fst, nil
